@@ -7,12 +7,21 @@
   (so `SetIdPlaceholder(ctx, "")` and `ClearIdPlaceholder(ctx)` coincide, as in Go).
 
   Two levels:
-  * one cell (`stepCell`, `runActs`, `solo`): the accesses one request makes to *its* holder;
-  * the world (`World`, `stepWorld`, `runWorld`): a heap of holders shared by any number of
-    requests. `begin` is `newBatchContext` (called first thing by `HandleRequest`): it allocates a
-    NEW holder (`&batchData{…}` — a composite literal, so a fresh address) initialised to `""` and
-    binds it in the request's context. Every accessor goes through the binding of the request that
-    performs it (`ctx.Value(ctxBatch{}).(*batchData)`).
+  * one cell (`stepCell`, `runActs`, `solo`): the accesses made to ONE holder;
+  * the world (`World`, `stepWorld`, `runWorld`): ONE heap of holders (`batchData` objects) shared by
+    any number of calls of `HandleRequest`, and the contexts through which they are reached.
+    A context is the list of its `context.WithValue` layers; an accessor finds its holder through
+    the innermost binding of `ctxBatch{}` in the context it is given (`holder`). A call of
+    `HandleRequest` receives a parent context — the connection's (one object shared by all the
+    requests of the connection) or the context held by a handler of another request (a forwarding
+    handler) — and runs the message chain with it; every time a message middleware calls `next`
+    the core handler `handleRequest` executes a message (a RUN): a retrying middleware causes
+    several runs of one message, a substituting one runs other messages.
+    WHERE a holder comes from and WHEN a batch context is made are parameters (`Impl`), because this
+    is exactly what a faulty implementation gets wrong: the Go code of today is `Impl.go`
+    (`newBatchContext` builds `&batchData{…}`, a new object; called once, by `HandleRequest`, before
+    the message chain); pooled / connection-level / package-level holders are `Alloc.reuse`,
+    `Alloc.global`. The engine `placemw` determines the parameters of the real code by probing it.
 -/
 namespace Kmip.Placeholder
 
@@ -52,12 +61,79 @@ def writes : List PAct → List Val
 /-- the last value written, `c` when nothing was written. -/
 def lastWrite (c : Val) (as : List PAct) : Val := (writes as).getLast?.getD c
 
-/-! ### the world: several requests, one heap of holders -/
+/-- `GetIdOrPlaceholder(ctx, reqId)` on a holder containing `ph`: the explicit id wins, then the
+    placeholder; `none` is the error "ID Placeholder is empty". -/
+def resolve (ph reqId : Val) : Option Val :=
+  if reqId ≠ 0 then some reqId else if ph ≠ 0 then some ph else none
+
+/-! ### contexts -/
+
+/-- one `context.WithValue` (or `WithCancel`, `WithTimeout`, …) layer, as far as this property is
+    concerned. -/
+inductive Bind where
+  | batch (a : Nat)    -- `context.WithValue(parent, ctxBatch{}, bdata)` with `bdata` at address `a`
+  | other (k : Nat)    -- any other layer: `ctxConn{}`, user values, cancellation, deadlines
+  deriving Repr, DecidableEq, Inhabited
+
+/-- a `context.Context`: its layers, innermost first. -/
+abbrev Ctx := List Bind
+
+/-- `ctx.Value(ctxBatch{}).(*batchData)`: the innermost binding of the key (`none`: nil). -/
+def holder : Ctx → Option Nat
+  | [] => none
+  | .batch a :: _ => some a
+  | .other _ :: c => holder c
+
+/-! ### the implementation parameters -/
+
+/-- where `newBatchContext` takes the holder from. -/
+inductive Alloc where
+  | fresh    -- `bdata := &batchData{…}`: a new object on every call            (THE GO CODE)
+  | reuse    -- the holder already bound in the parent context when there is one, else a new one
+             --   (holder attached to the connection context / found by walking the parents)
+  | global   -- one package-level holder (or a pool that always hands out the same object)
+  deriving Repr, DecidableEq, Inhabited
+
+structure Impl where
+  alloc   : Alloc
+  /-- a holder that is not new is reset to `""` by `newBatchContext` (a pool that clears on `Get`) -/
+  reset   : Bool
+  /-- `HandleRequest` makes a batch context before the message chain runs (router.go) -/
+  atEntry : Bool
+  /-- the core handler `handleRequest` makes a batch context for the message it is given -/
+  atCore  : Bool
+  deriving Repr, DecidableEq, Inhabited
+
+/-- kmipserver/router.go at /repo HEAD: `HandleRequest` calls `newBatchContext` before
+    `exec.nextFrom(0)(ctx, req)`; `handleRequest` does not. -/
+def Impl.go : Impl := { alloc := .fresh, reset := false, atEntry := true, atCore := false }
+
+/-- the proposed repair: `handleRequest` makes its own batch context too. -/
+def Impl.fixed : Impl := { alloc := .fresh, reset := false, atEntry := true, atCore := true }
+
+/-- `newBatchContext(parent, hdr)`: the heap afterwards and the context returned. -/
+def newBatchContext (impl : Impl) (heap : List Val) (parent : Ctx) : List Val × Ctx :=
+  let a := match impl.alloc with
+    | .fresh => heap.length
+    | .reuse => (holder parent).getD heap.length
+    | .global => 0
+  if a < heap.length then ((if impl.reset then heap.set a 0 else heap), .batch a :: parent)
+  else (heap ++ [0], .batch heap.length :: parent)
+
+/-! ### the world: several calls of `HandleRequest`, one heap of holders -/
+
+/-- the parent context a call of `HandleRequest` is given. -/
+inductive Parent where
+  | conn (c : Nat)      -- the context of connection `c` (the same object for all its requests)
+  | inside (q : Nat)    -- the context request `q`'s handlers hold at that moment (forwarding)
+  deriving Repr, DecidableEq, Inhabited
 
 /-- a step of a request as far as the placeholder is concerned. -/
 inductive GStep where
-  | begin              -- `newBatchContext`
-  | act (a : PAct)
+  | enter (p : Parent)  -- `HandleRequest(ctx, req)` is called with parent context `p`
+  | wrap (k : Nat)      -- a message middleware derives a context from the one it holds
+  | core                -- a message middleware calls `next`: `handleRequest` starts a run
+  | act (a : PAct)      -- an accessor called by a handler (or by `handleBatchItemError`)
   deriving Repr, DecidableEq, Inhabited
 
 /-- what a step lets its request observe. `SetIdPlaceholder` outside a batch context panics. -/
@@ -67,17 +143,42 @@ inductive Obs where
   deriving Repr, DecidableEq, Inhabited
 
 structure World where
-  heap : List Val              -- every `batchData` ever allocated
-  env  : Nat → Option Nat      -- request id ↦ address of the holder bound in its context
+  heap : List Val              -- the `idPlaceholder` field of every `batchData` ever allocated
+  base : Nat → Option Ctx      -- request ↦ the context its message chain currently holds
+  cur  : Nat → Option Ctx      -- request ↦ the context its handlers are given (current run)
 
-def World.init : World := { heap := [], env := fun _ => none }
+def World.init : World := { heap := [], base := fun _ => none, cur := fun _ => none }
+
+def upd (f : Nat → Option Ctx) (r : Nat) (c : Option Ctx) : Nat → Option Ctx :=
+  fun q => if q = r then c else f q
+
+/-- the parent context `p` denotes. -/
+def parentCtx (w : World) : Parent → Ctx
+  | .conn c => [.other c]
+  | .inside q => (w.cur q).getD []
 
 /-- request `r` performs step `s`. -/
-def stepWorld (w : World) (r : Nat) : GStep → World × Option Obs
-  | .begin =>
-    ({ heap := w.heap ++ [0], env := fun q => if q = r then some w.heap.length else w.env q }, none)
+def stepWorld (impl : Impl) (w : World) (r : Nat) : GStep → World × Option Obs
+  | .enter p =>
+    let parent : Ctx := parentCtx w p
+    if impl.atEntry then
+      let x := newBatchContext impl w.heap parent
+      ({ heap := x.1, base := upd w.base r (some x.2), cur := upd w.cur r none }, none)
+    else ({ w with base := upd w.base r (some parent), cur := upd w.cur r none }, none)
+  | .wrap k =>
+    match w.base r with
+    | none => (w, none)
+    | some b => ({ w with base := upd w.base r (some (.other k :: b)) }, none)
+  | .core =>
+    match w.base r with
+    | none => (w, none)            -- `HandleRequest` was not called: nothing runs
+    | some b =>
+      if impl.atCore then
+        let x := newBatchContext impl w.heap b
+        ({ w with heap := x.1, cur := upd w.cur r (some x.2) }, none)
+      else ({ w with cur := upd w.cur r (some b) }, none)
   | .act a =>
-    match w.env r with
+    match (w.cur r).bind holder with
     | none =>            -- no batch context: `IdPlaceholder` = "", `Clear` is a no-op, `Set` panics
       (w, match a with | .read => some (.val 0) | .clear => none | .set _ => some .panic)
     | some addr =>
@@ -85,19 +186,43 @@ def stepWorld (w : World) (r : Nat) : GStep → World × Option Obs
       ({ w with heap := w.heap.set addr c' }, o.map .val)
 
 /-- run a global schedule; the log records who observed what, in order. -/
-def runWorld (w : World) : List (Nat × GStep) → World × List (Nat × Obs)
+def runWorld (impl : Impl) (w : World) : List (Nat × GStep) → World × List (Nat × Obs)
   | [] => (w, [])
   | (r, s) :: rest =>
-    let (w', o) := stepWorld w r s
-    let (w'', os) := runWorld w' rest
+    let (w', o) := stepWorld impl w r s
+    let (w'', os) := runWorld impl w' rest
     (w'', o.toList.map (fun v => (r, v)) ++ os)
 
 /-- the observations of request `r` in a log. -/
 def obsOf (r : Nat) (log : List (Nat × Obs)) : List Obs :=
   (log.filter (fun e => e.1 == r)).map (·.2)
 
-/-- the steps of one request: `HandleRequest` first creates the batch context. -/
-def prog (as : List PAct) : List GStep := .begin :: as.map .act
+/-- one run of the core handler: the context layers the middleware added before calling `next`,
+    then the accesses of the run. -/
+structure Run where
+  wraps : List Nat
+  acts  : List PAct
+  deriving Repr, DecidableEq, Inhabited
+
+def runSteps (rn : Run) : List GStep := rn.wraps.map .wrap ++ .core :: rn.acts.map .act
+
+def runsSteps : List Run → List GStep
+  | [] => []
+  | rn :: rest => runSteps rn ++ runsSteps rest
+
+/-- the steps of one call of `HandleRequest` with parent `p` whose message chain causes `runs`. -/
+def prog (p : Parent) (runs : List Run) : List GStep := .enter p :: runsSteps runs
+
+/-- the plain case: no message middleware, one run. -/
+def prog1 (p : Parent) (as : List PAct) : List GStep := prog p [⟨[], as⟩]
+
+/-- what the property demands of a request: every run observes what it observes on a holder that
+    is `""` when the run starts. -/
+def soloRuns (runs : List Run) : List Val := (runs.map fun rn => solo rn.acts).flatten
+
+/-- what the Go code of today gives instead: the runs of ONE call of `HandleRequest` share a holder
+    (but nothing is shared with other calls). -/
+def sharedRuns (runs : List Run) : List Val := solo (runs.map (·.acts)).flatten
 
 /-- `Interleaving progs sched`: `sched` is a merge of the step sequences `progs` (request `i` runs
     `progs[i]`): it is built by repeatedly letting some request that is not finished perform its
